@@ -34,7 +34,7 @@ BASE_WEIGHTS = {
 PROFILES = {
     "C01": {"geo_image": 2, "mk_dup": 2},
     "C02": {"retype": 4, "rm_parent": 6, "rm_ws": 8, "set_flag": 6, "move": 7, "copy": 8, "close_reopen": 6, "move_data": 6, "copy_extent": 5, "pg_add": 6},
-    "C05": {"add_comment": 5, "add_file": 3, "rm_ws": 12, "rm_parent": 9, "pg_add": 13, "pg_rm": 4, "pg_new": 6, "lookup": 6, "copy": 4, "set_flag": 5, "rm_all": 1, "add_data": 14},
+    "C05": {"add_comment": 5, "add_file": 3, "rm_ws": 12, "rm_parent": 9, "pg_add": 12, "pg_rm": 4, "pg_new": 6, "lookup": 6, "copy": 4, "set_flag": 8, "rm_all": 1, "add_data": 14, "close_reopen": 6},
     "C06": {"mk_dup": 8, "copy": 10, "rm_ws": 6, "rm_parent": 5, "lookup": 4},
     "C09": {"observe": 4, "list": 4, "type_edit": 7, "retype": 8, "copy": 12, "pg_add": 10, "add_data": 16, "geo_image": 2, "add_file": 2, "mk_dup": 3, "rm_all": 1},
     "C12": {"copy": 16, "set_values": 7, "rename": 6, "set_meta": 6, "pg_add": 6, "copy_extent": 6, "pg_new": 3, "geo_image": 3},
@@ -1062,7 +1062,7 @@ class World:
             t = self.target(rng, h, "entity", lambda r: r["uid"] in guarded and r["flags"]["allow_delete"])
             if t is not None:
                 return t
-        if rng.random() < 0.12:
+        if rng.random() < (0.22 if self.prop == "C05" else 0.12):
             # a drillhole group (or its container) that holds ordinary data besides its holes
             loaded = {u for u, r in model.recs.items() if r.get("concat_group") and any(model.recs[c]["kind"] == "data" for c in r["children"])}
             loaded |= {model.recs[u]["parent"] for u in loaded if model.recs[u].get("parent") in model.recs and model.recs[u]["parent"] != model.root}
